@@ -19,6 +19,9 @@ from pathlib import Path
 VERIF = Path(__file__).resolve().parent.parent
 PY = "/venv/bin/python"
 PROPS = [f"C{n:02d}" for n in range(1, 21)]
+if os.environ.get("REFACTOR_EVAL_PROPS"):
+    # restrict to some checks (e.g. after editing only their rules): REFACTOR_EVAL_PROPS=C01,C16
+    PROPS = [p for p in os.environ["REFACTOR_EVAL_PROPS"].split(",") if p]
 
 
 def one(diff: Path) -> dict:
